@@ -1,0 +1,404 @@
+// This Source Code Form is subject to the terms of the Mozilla Public
+// License, v. 2.0. If a copy of the MPL was not distributed with this
+// file, You can obtain one at http://mozilla.org/MPL/2.0/.
+
+//go:build verif
+
+package inmem
+
+// Trace hooks for model-based verification (compiled only with -tags verif).
+//
+// Every hook is called at a linearization point of the collection: while collection.mu is held, after
+// the state change and before anybody else can observe it (the send hooks are called by the watch
+// goroutine right after the hand-off of an event to the subscriber). Each call emits one JSON line
+// carrying a process-wide sequence number taken under the same lock. Nothing is emitted unless a sink
+// is installed (SetVerifSink, or the environment variable VERIF_INMEM_TRACE=<file prefix>).
+
+import (
+	"crypto/sha256"
+	"encoding/binary"
+	"encoding/hex"
+	"encoding/json"
+	"fmt"
+	"os"
+	"slices"
+	"sort"
+	"strings"
+	"sync"
+	"sync/atomic"
+
+	"go.yaml.in/yaml/v4"
+
+	"github.com/cosi-project/runtime/pkg/resource"
+	"github.com/cosi-project/runtime/pkg/state"
+)
+
+type verifColl struct {
+	cid int64
+}
+
+var (
+	verifSink    atomic.Pointer[func([]byte)]
+	verifMu      sync.Mutex
+	verifSeq     int64
+	verifCollSeq atomic.Int64
+	verifWSeq    atomic.Int64
+	verifTimes   = map[int64]int{}
+)
+
+// SetVerifSink installs (or, with nil, removes) the receiver of trace lines. The sink is called with verifMu held,
+// one complete JSON document per call, in sequence-number order.
+func SetVerifSink(f func(line []byte)) {
+	if f == nil {
+		verifSink.Store(nil)
+
+		return
+	}
+
+	verifSink.Store(&f)
+}
+
+func init() {
+	prefix := os.Getenv("VERIF_INMEM_TRACE")
+	if prefix == "" {
+		return
+	}
+
+	f, err := os.OpenFile(fmt.Sprintf("%s.%d.ndjson", prefix, os.Getpid()), os.O_CREATE|os.O_WRONLY|os.O_APPEND, 0o644)
+	if err != nil {
+		return
+	}
+
+	SetVerifSink(func(line []byte) {
+		f.Write(append(line, '\n')) //nolint:errcheck
+	})
+}
+
+func verifEmit(c int64, ev string, fields map[string]any) {
+	sink := verifSink.Load()
+	if sink == nil {
+		return
+	}
+
+	verifMu.Lock()
+	defer verifMu.Unlock()
+
+	verifSeq++
+
+	fields["seq"] = verifSeq
+	fields["c"] = c
+	fields["ev"] = ev
+
+	line, err := json.Marshal(fields)
+	if err != nil {
+		line, _ = json.Marshal(map[string]any{"seq": verifSeq, "c": c, "ev": "hookerror", "what": err.Error()}) //nolint:errcheck
+	}
+
+	(*sink)(line)
+}
+
+func verifOn() bool { return verifSink.Load() != nil }
+
+func verifVer(v resource.Version) int {
+	if v.Equal(resource.VersionUndefined) {
+		return -1
+	}
+
+	return int(min(v.Value(), 1_000_000))
+}
+
+func verifTimeClass(nanos int64, zero bool) int {
+	if zero {
+		return 0
+	}
+
+	verifMu.Lock()
+	defer verifMu.Unlock()
+
+	if c, ok := verifTimes[nanos]; ok {
+		return c
+	}
+
+	verifTimes[nanos] = len(verifTimes) + 1
+
+	return verifTimes[nanos]
+}
+
+func verifKV(m map[string]string) string {
+	keys := make([]string, 0, len(m))
+	for k := range m {
+		keys = append(keys, k)
+	}
+
+	sort.Strings(keys)
+
+	var sb strings.Builder
+
+	for _, k := range keys {
+		fmt.Fprintf(&sb, "%q=%q,", k, m[k])
+	}
+
+	return sb.String()
+}
+
+func verifSpec(r resource.Resource) (digest string) {
+	defer func() {
+		if recover() != nil {
+			digest = ""
+		}
+	}()
+
+	out, err := yaml.Marshal(r.Spec())
+	if err != nil {
+		return ""
+	}
+
+	sum := sha256.Sum256(out)
+
+	return hex.EncodeToString(sum[:6])
+}
+
+func verifAbsent() map[string]any {
+	return map[string]any{"x": false, "ver": 0, "owner": "", "phase": "", "fins": []string{}, "lab": "", "ann": "", "cr": 0, "spec": ""}
+}
+
+func verifMd(md *resource.Metadata) map[string]any {
+	if md == nil {
+		return verifAbsent()
+	}
+
+	fins := slices.Clone(*md.Finalizers())
+	if fins == nil {
+		fins = []string{}
+	}
+
+	sort.Strings(fins)
+
+	return map[string]any{
+		"x": true, "ver": verifVer(md.Version()), "owner": md.Owner(), "phase": md.Phase().String(), "fins": fins,
+		"lab": verifKV(md.Labels().Raw()), "ann": verifKV(md.Annotations().Raw()),
+		"cr": verifTimeClass(md.Created().UnixNano(), md.Created().IsZero()), "spec": "",
+	}
+}
+
+func verifRes(r resource.Resource) map[string]any {
+	if r == nil {
+		return verifAbsent()
+	}
+
+	m := verifMd(r.Metadata())
+	m["spec"] = verifSpec(r)
+
+	return m
+}
+
+func verifBookmark(b state.Bookmark) int {
+	if b == nil {
+		return -2
+	}
+
+	if len(b) != 16 || !slices.Equal(b[:8], bookmarkCookie()) {
+		return -99
+	}
+
+	return int(max(min(int64(binary.BigEndian.Uint64(b[8:])), 1_000_000), -1))
+}
+
+func verifEvent(ev *state.Event) map[string]any {
+	m := map[string]any{"t": strings.ToLower(ev.Type.String()), "id": "", "ver": 0, "over": 0, "bm": verifBookmark(ev.Bookmark)}
+
+	if ev.Resource != nil && ev.Type <= state.Destroyed {
+		m["id"] = ev.Resource.Metadata().ID()
+		m["ver"] = verifVer(ev.Resource.Metadata().Version())
+	}
+
+	if ev.Old != nil && ev.Type == state.Updated {
+		m["over"] = verifVer(ev.Old.Metadata().Version())
+	}
+
+	return m
+}
+
+func (collection *ResourceCollection) verifNew() {
+	collection.verif.cid = verifCollSeq.Add(1)
+
+	if !verifOn() {
+		return
+	}
+
+	verifEmit(collection.verif.cid, "coll", map[string]any{
+		"ns": collection.ns, "typ": collection.typ, "init": collection.capacity, "max": collection.maxCapacity, "gap": collection.gap,
+		"backed": collection.store != nil,
+	})
+}
+
+// verifOp: one store operation took the given branch (ok or the failed precondition); called with the lock held, on the
+// success path after the commit. req is the metadata of the request object (nil for Destroy), res the object that was
+// to be stored (nil unless create/update).
+func (collection *ResourceCollection) verifOp(op, branch string, id resource.ID, req *resource.Metadata, res resource.Resource, owner string, exp *resource.Phase) {
+	if !verifOn() {
+		return
+	}
+
+	expected := "any"
+	if exp != nil {
+		expected = exp.String()
+	}
+
+	reqVer := -1
+	if req != nil {
+		reqVer = verifVer(req.Version())
+	}
+
+	verifEmit(collection.verif.cid, "op", map[string]any{
+		"op": op, "br": branch, "id": id, "owner": owner, "exp": expected, "rver": reqVer,
+		"nw": verifRes(res), "st": verifRes(collection.storage[id]),
+	})
+}
+
+func (collection *ResourceCollection) verifInject(res resource.Resource) {
+	if !verifOn() {
+		return
+	}
+
+	verifEmit(collection.verif.cid, "inj", map[string]any{"id": res.Metadata().ID(), "st": verifRes(collection.storage[res.Metadata().ID()])})
+}
+
+func (collection *ResourceCollection) verifPublish(ev *state.Event) {
+	if !verifOn() {
+		return
+	}
+
+	stored := collection.stream[(collection.writePos-1)%int64(collection.capacity)]
+
+	verifEmit(collection.verif.cid, "pub", map[string]any{
+		"pos": collection.writePos - 1, "cap": collection.capacity, "len": len(collection.stream), "e": verifEvent(&stored),
+	})
+}
+
+func (collection *ResourceCollection) verifWatchStart(kind string, id resource.ID, tail int, bookmark state.Bookmark, bootstrap, bootstrapBookmark bool,
+	pos int64, initial *state.Event, boot []resource.Resource, matches func(resource.Resource) bool,
+) int64 {
+	wid := verifWSeq.Add(1)
+
+	if !verifOn() {
+		return wid
+	}
+
+	mode := "default"
+
+	switch {
+	case tail > 0:
+		mode = "tail"
+	case bookmark != nil:
+		mode = "bookmark"
+	case bootstrap:
+		mode = "bootstrap"
+	}
+
+	init := []map[string]any{}
+
+	if initial != nil && mode == "default" {
+		init = append(init, verifEvent(initial))
+	}
+
+	for _, r := range boot {
+		init = append(init, verifEvent(&state.Event{Type: state.Created, Resource: r}))
+	}
+
+	// which of the stored resources the watch selects (kind watches; evaluated by the code's own selector closure)
+	sel := []string{}
+
+	if matches != nil {
+		for rid, r := range collection.storage {
+			if matches(r) {
+				sel = append(sel, rid)
+			}
+		}
+
+		sort.Strings(sel)
+	}
+
+	verifEmit(collection.verif.cid, "wstart", map[string]any{
+		"w": wid, "kind": kind, "id": id, "mode": mode, "n": tail, "bm": verifBookmark(bookmark), "bb": bootstrapBookmark, "res": "ok",
+		"pos": pos, "wp": collection.writePos, "cap": collection.capacity, "init": init, "sel": sel,
+	})
+
+	return wid
+}
+
+func (collection *ResourceCollection) verifWatchReject(kind string, id resource.ID, bookmark state.Bookmark) {
+	if !verifOn() {
+		return
+	}
+
+	verifEmit(collection.verif.cid, "wstart", map[string]any{
+		"w": verifWSeq.Add(1), "kind": kind, "id": id, "mode": "bookmark", "n": 0, "bm": verifBookmark(bookmark), "bb": false, "res": "invalidBookmark",
+		"pos": 0, "wp": collection.writePos, "cap": collection.capacity, "init": []map[string]any{}, "sel": []string{},
+	})
+}
+
+// verifRead: a single-resource watcher examined the ring with the lock held: overrun detected, or scanned up to pos
+// (exclusive) and found / did not find an event of its resource at pos-1.
+func (collection *ResourceCollection) verifRead(wid, pos int64, overrun, found bool) {
+	if !verifOn() {
+		return
+	}
+
+	verifEmit(collection.verif.cid, "wread", map[string]any{
+		"w": wid, "pos": pos, "npos": pos, "wp": collection.writePos, "cap": collection.capacity, "over": overrun, "found": found,
+		"raw": []map[string]any{},
+	})
+}
+
+// verifReadAll: a kind watcher copied the pending events [pos, writePos) out of the ring with the lock held.
+func (collection *ResourceCollection) verifReadAll(wid, pos int64, events []state.Event, matches func(resource.Resource) bool) {
+	if !verifOn() {
+		return
+	}
+
+	raw := make([]map[string]any, 0, len(events))
+
+	for i := range events {
+		m := verifEvent(&events[i])
+		m["mn"] = events[i].Resource != nil && matches(events[i].Resource)
+		m["mo"] = events[i].Old != nil && matches(events[i].Old)
+
+		raw = append(raw, m)
+	}
+
+	verifEmit(collection.verif.cid, "wread", map[string]any{
+		"w": wid, "pos": pos, "npos": collection.writePos, "wp": collection.writePos, "cap": collection.capacity, "over": false, "found": false,
+		"raw": raw,
+	})
+}
+
+func (collection *ResourceCollection) verifSend(wid int64, ev *state.Event) {
+	if !verifOn() {
+		return
+	}
+
+	verifEmit(collection.verif.cid, "wsend", map[string]any{"w": wid, "e": verifEvent(ev)})
+}
+
+func (collection *ResourceCollection) verifSendBatch(wid int64, evs []state.Event) {
+	if !verifOn() {
+		return
+	}
+
+	for i := range evs {
+		verifEmit(collection.verif.cid, "wsend", map[string]any{"w": wid, "e": verifEvent(&evs[i])})
+	}
+}
+
+func (collection *ResourceCollection) verifSendBoot(wid int64, res resource.Resource) {
+	collection.verifSend(wid, &state.Event{Type: state.Created, Resource: res})
+}
+
+func (collection *ResourceCollection) verifSendMark(wid int64, typ state.EventType, pos int64) {
+	collection.verifSend(wid, &state.Event{Type: typ, Bookmark: encodeBookmark(pos)})
+}
+
+func (collection *ResourceCollection) verifSendErrored(wid int64) {
+	collection.verifSend(wid, &state.Event{Type: state.Errored})
+}
